@@ -108,33 +108,36 @@ unit(id="fndecl.recreate", src=DECL, path=[("impl", "Recreate for FunctionDeclar
      ], **_COMMON)
 
 # ---------------------------------------------------------------- C11: the Rust-level consumers of iterators ------
+# A pull is `iter.exec_with_args(&[])`: no state parameter, so nothing is assumed about its result.  The sequence of pull
+# results is recorded in a ghost history `pulled` (injected at the top of the loop body) and the obligations are loop
+# invariants / assertions over it, carried by markers (ensures cannot mention a ghost local).
 COLLECT = "src/instruction/reduce/collect.rs"
-_IT = "var->Function_0"
-_N_EX = ("(exists|n: nat| #![trigger pull_st({it}, {s}, n)] (forall|k: nat| k < n ==> yields({it}, {s}, k)) && !yields({it}, {s}, n) "
-         "&& {st} == pull_st({it}, {s}, n + 1) && {tail})")
+_PUSH_HIST = ("proof {{ assert(pulled.push(tuple).drop_last() =~= pulled); pulled = pulled.push(tuple); }}\n")
 unit(id="collect.exec", src=COLLECT, path=[("fn", "exec")], mod="collect", fragments=["iterators"],
      fn_attrs=["#[verifier::exec_allows_no_decreases_clause]"],
-     requires=["var is Function", f"well_typed_iterator({_IT}, {S0})"],
+     requires=["var is Function", "typed_as_iterator(var->Function_0)"],
      injections=[
          ("let mut vec = Vec::new();\n",
-          "let mut vec = Vec::new();\n    let ghost s0 = interpreter.st@;\n    let ghost mut n: nat = 0;\n"),
-         ("while let Variable::Tuple(tuple) = iter.exec(interpreter)? {\n",
-          "while let Variable::Tuple(tuple) = iter.exec(interpreter)?\n"
+          "let mut vec = Vec::new();\n    let ghost mut pulled: Seq<Tup> = Seq::empty();\n"),
+         ("while let Variable::Tuple(tuple) = iter.exec_with_args(&[])? {\n",
+          "while let Variable::Tuple(tuple) = iter.exec_with_args(&[])?\n"
           "        invariant_except_break\n"
-          "            interpreter.st@ == pull_st(iter, s0, n),\n"
+          "            forall|i: int| 0 <= i < pulled.len() ==> continuing(#[trigger] pulled[i]), /*@obl:collect.exec.stops_at_the_first_pull_that_ends_the_sequence*/\n"
           "        invariant\n"
-          "            s0 == old(interpreter).st@, iter == var->Function_0, well_typed_iterator(iter, s0),\n"
-          "            vec@ == elems(iter, s0, n), forall|k: nat| k < n ==> yields(iter, s0, k),\n"
+          "            iter == var->Function_0, typed_as_iterator(iter),\n"
+          "            vec@ == kept_elems(pulled), /*@obl:collect.exec.yields_exactly_the_elements_of_the_continuing_pulls_in_pull_order*/\n"
           "        ensures\n"
-          "            interpreter.st@ == pull_st(iter, s0, n + 1), !yields(iter, s0, n), pull_res(iter, s0, n) is Ok,\n"
-          "    {\n"),
-         ("vec.push(", "proof { n = n + 1; }\n        vec.push("),   # short anchor: survives most edits of the loop body
+          "            forall|i: int| 0 <= i < pulled.len() - 1 ==> continuing(#[trigger] pulled[i]),\n"
+          "    {\n        " + _PUSH_HIST.format()),
+         ("Ok(vec.into())",
+          "assert(vec@ == kept_elems(pulled)) /*@obl:collect.exec.yields_exactly_the_elements_of_the_continuing_pulls_in_pull_order*/;\n"
+          "    assert(forall|i: int| 0 <= i < pulled.len() - 1 ==> continuing(#[trigger] pulled[i])) /*@obl:collect.exec.stops_at_the_first_pull_that_ends_the_sequence*/;\n"
+          "    Ok(vec.into())"),
      ],
      ensures=[
-         ("collect.exec.pulls_in_order_each_once_until_the_first_end_marker_and_yields_exactly_those_elements", ["C11"],
-          _N_EX.format(it=_IT, s=S0, st=S9,
-                       tail=f"(match pull_res({_IT}, {S0}, n) {{ Err(e) => r is Err, "
-                            f"Ok(_) => r is Ok && r->Ok_0 is Array && r->Ok_0->Array_0.elems@ == elems({_IT}, {S0}, n) }})")),
+         ("collect.exec.yields_exactly_the_elements_of_the_continuing_pulls_in_pull_order", ["C11"], None),
+         ("collect.exec.stops_at_the_first_pull_that_ends_the_sequence", ["C11"], None),
+         ("collect.exec.result_is_an_array", ["C11"], "r is Ok ==> r->Ok_0 is Array"),
      ])
 
 REDUCE = "src/instruction/reduce.rs"
@@ -146,39 +149,39 @@ R2S = f"eval_st(self.initial_value.instruction, {R1S})"
 R3 = f"eval_res(self.function.instruction, {R2S})"
 R3S = f"eval_st(self.function.instruction, {R2S})"
 _ROK = f"{R1} is Ok && {R2} is Ok && {R3} is Ok"
-_RIT = f"{R1}->Ok_0->Function_0"
-_RF = f"{R3}->Ok_0->Function_0"
-_FOLD = "fold_acc({it}, {f}, {init}, {s}, {n})"
 unit(id="reduce.exec", src=REDUCE, path=[("impl", "Exec for Reduce"), ("fn", "exec")], impl="Reduce",
      stubs=["iws.exec"], fragments=["iterators"], omit=["opaque_reduce"], unit_types=[_T_RED],
      fn_attrs=["#[verifier::exec_allows_no_decreases_clause]"],
-     requires=[f"{R1} is Ok ==> {R1}->Ok_0 is Function",
-               f"{_ROK} ==> {R3}->Ok_0 is Function && well_typed_iterator({_RIT}, {R3S})"],
+     requires=[f"{R1} is Ok ==> {R1}->Ok_0 is Function && typed_as_iterator({R1}->Ok_0->Function_0)",
+               f"{_ROK} ==> {R3}->Ok_0 is Function"],
      injections=[
          ("let mut result = initial_value;\n",
-          "let ghost init0 = initial_value;\n        let ghost s3 = interpreter.st@;\n        let ghost mut n: nat = 0;\n"
+          "let ghost init0 = initial_value;\n        let ghost mut pulled: Seq<Tup> = Seq::empty();\n"
           "        let mut result = initial_value;\n"),
-         ("while let Variable::Tuple(tuple) = iter.exec(interpreter)? {\n",
-          "while let Variable::Tuple(tuple) = iter.exec(interpreter)?\n"
+         ("while let Variable::Tuple(tuple) = iter.exec_with_args(&[])? {\n",
+          "while let Variable::Tuple(tuple) = iter.exec_with_args(&[])?\n"
           "            invariant_except_break\n"
-          "                interpreter.st@ == pull_st(*iter, s3, n),\n"
+          "                forall|i: int| 0 <= i < pulled.len() ==> continuing(#[trigger] pulled[i]), /*@obl:reduce.exec.stops_at_the_first_pull_that_ends_the_sequence*/\n"
           "            invariant\n"
-          "                well_typed_iterator(*iter, s3), forall|k: nat| k < n ==> yields(*iter, s3, k),\n"
-          f"                {_ROK}, s3 == {R3S}, *iter == {_RIT}, *function == {_RF}, init0 == {R2}->Ok_0,\n"
-          "                fold_acc(*iter, *function, init0, s3, n) == Ok::<Variable, ExecError>(result),\n"
+          f"                {_ROK}, typed_as_iterator(*iter), {S9.replace('final(interpreter)', 'interpreter')} == {R3S},\n"
+          "                fold_seq(*function, init0, kept_elems(pulled)) == Ok::<Variable, ExecError>(result), /*@obl:reduce.exec.is_the_left_fold_over_the_elements_of_the_continuing_pulls_in_pull_order*/\n"
           "            ensures\n"
-          "                interpreter.st@ == pull_st(*iter, s3, n + 1), !yields(*iter, s3, n), pull_res(*iter, s3, n) is Ok,\n"
-          "        {\n"),
-         ("result = function.exec_with_args(", "proof { n = n + 1; }\n            result = function.exec_with_args("),
+          "                forall|i: int| 0 <= i < pulled.len() - 1 ==> continuing(#[trigger] pulled[i]),\n"
+          "        {\n            " + _PUSH_HIST.format()),
+         ("result = function.exec_with_args(",
+          "proof { let xs = kept_elems(pulled); assert(xs.drop_last() =~= kept_elems(pulled.drop_last())); }\n"
+          "            result = function.exec_with_args("),
+         ("Ok(result)\n",
+          "assert(fold_seq(*function, init0, kept_elems(pulled)) == Ok::<Variable, ExecError>(result)) "
+          "/*@obl:reduce.exec.is_the_left_fold_over_the_elements_of_the_continuing_pulls_in_pull_order*/;\n"
+          "        assert(forall|i: int| 0 <= i < pulled.len() - 1 ==> continuing(#[trigger] pulled[i])) /*@obl:reduce.exec.stops_at_the_first_pull_that_ends_the_sequence*/;\n"
+          "        Ok(result)\n"),
      ],
      ensures=[
          ("reduce.exec.iterator_then_initial_value_then_function_errors_stop", ["C07", "C11"],
           f"({R1} is Err ==> r == {R1} && {S9} == {R1S}) && ({R1} is Ok && {R2} is Err ==> r == {R2} && {S9} == {R2S}) "
           f"&& ({R1} is Ok && {R2} is Ok && {R3} is Err ==> r == {R3} && {S9} == {R3S})"),
-         ("reduce.exec.is_the_left_fold_over_the_elements_pulled_in_order_each_once", ["C11"],
-          f"{_ROK} ==> (exists|n: nat| #![trigger pull_st({_RIT}, {R3S}, n)] (forall|k: nat| k < n ==> yields({_RIT}, {R3S}, k)) "
-          f"&& {_FOLD.format(it=_RIT, f=_RF, init=R2 + '->Ok_0', s=R3S, n='n')} is Ok && {S9} == pull_st({_RIT}, {R3S}, n + 1) "
-          f"&& (match pull_res({_RIT}, {R3S}, n) {{ Err(e) => r is Err, "
-          f"Ok(_) => if yields({_RIT}, {R3S}, n) {{ {_FOLD.format(it=_RIT, f=_RF, init=R2 + '->Ok_0', s=R3S, n='n + 1')} is Err && r is Err }} "
-          f"else {{ r == Ok::<Variable, ExecStop>({_FOLD.format(it=_RIT, f=_RF, init=R2 + '->Ok_0', s=R3S, n='n')}->Ok_0) }} }}))"),
+         ("reduce.exec.pulling_and_folding_leave_the_callers_scope_alone", ["C11"], f"{_ROK} ==> {S9} == {R3S}"),
+         ("reduce.exec.is_the_left_fold_over_the_elements_of_the_continuing_pulls_in_pull_order", ["C11"], None),
+         ("reduce.exec.stops_at_the_first_pull_that_ends_the_sequence", ["C11"], None),
      ])
